@@ -3,3 +3,12 @@ import SJ.Props.C18
 #print axioms SJ.Props.C18.c18_parse_index
 #print axioms SJ.Props.C18.c18_pointer
 #print axioms SJ.Props.C18.c18_pointer_mut
+#print axioms SJ.Props.C18.c18_get_index
+#print axioms SJ.Props.C18.c18_index_mut
+#print axioms SJ.Props.C18.c18_index_mut_reference
+#print axioms SJ.Props.C18.c18_take
+#print axioms SJ.Props.C18.c18_partial_eq
+#print axioms SJ.Props.C18.c18_partial_eq_float
+#print axioms SJ.Props.C18.c18_partial_eq_nan
+#print axioms SJ.Props.C18.c18_json_macro
+#print axioms SJ.Props.C18.c18_json_rules_tied
